@@ -504,14 +504,18 @@ def run(ctx):
     for k in range(0, len(cases), chunk):
         judge_cases(ctx, cases[k:k + chunk])
     # exhaustive two-state family enumerated by TLC itself: a slice in quick, everything in thorough
-    mod = 600 if ctx.tier == "quick" else 1
+    # quick: a 1/600 slice; thorough: a 1/8 slice (~52k instances); VERIF_C01_FULL=1: the whole family
+    # (419 904 instances, several hours because every returned policy goes back to TLC for exact evaluation)
+    import os
+    full = os.environ.get("VERIF_C01_FULL") == "1"
+    mod = 600 if ctx.tier == "quick" else (1 if full else 8)
     n = 0
     for gamma in ("half", "one"):
         n += family_cases(ctx, gamma, mod, ctx.seed % mod)
     ctx.count("family_instances", n)
-    if ctx.tier == "thorough":
+    if ctx.tier == "thorough" and full:
         ctx.exhaustive = True
-        ctx.extra["exhaustive_family"] = "all 209952 (x2 discounts) two-state/two-action MDPs of C01_Planners!Family"
+        ctx.extra["exhaustive_family"] = "all 209952 (x2 discounts) two-state/two-action MDPs of C01_Planners!FamDecode"
 
 
 def replay(ctx, case):
